@@ -1,6 +1,6 @@
 (* Props/C06.v — range of solutions = exact per-source extent of the solution polytope. *)
 From Coq Require Import QArith Qabs Qminmax List Bool Arith Lqa.
-From DV Require Import Base.QVec Run.Verdict Model.Linear Cert.Hull Model.Gauss Model.Range Proofs.RangeP Proofs.VertexDefs Proofs.RangeCompleteP.
+From DV Require Import Base.QVec Run.Verdict Model.Linear Cert.Hull Model.Gauss Model.Range Proofs.RangeP Proofs.VertexDefs Proofs.RangeCompleteP Proofs.BasisCheckP.
 Import ListNotations.
 Open Scope Q_scope.
 
@@ -69,6 +69,20 @@ Print Assumptions range_is_exact.
 Theorem enumeration_total : forall A b lb ub n, exists cands, candidates A b lb ub n = Ok cands.
 Proof. exact Proofs.RangeCompleteP.candidates_never_fail. Qed.
 Print Assumptions enumeration_total.
+(* the full-rank hypothesis is decided exactly, case by case, inside the verdict (elimination on every m-subset of the columns) *)
+Theorem full_rank_test_sound : forall A n, rect n A -> has_basis_b A n = true -> has_basis A n.
+Proof. exact Proofs.BasisCheckP.has_basis_b_sound. Qed.
+Print Assumptions full_rank_test_sound.
+(* (C) hence a passing verdict on a real output of a full-rank system means, WITHOUT any further certificate: the implementation's
+   (Xmin, Xmax) agree within the comparison tolerance with ends mm <= x_k <= MM that bracket EVERY in-bound solution x *)
+Theorem verdict_gives_exact_range : forall (c : case) (mins maxs : vec),
+  verdict c = true -> c_expect c = 0%nat -> c_fullrank c = true -> c_impl c = Ok (mins, maxs) ->
+  rect (c_n c) (A' c) -> (length (A' c) <= c_n c)%nat -> length (c_lb c) = c_n c -> length (c_ub c) = c_n c ->
+  forall x k, (k < c_n c)%nat -> sol_set (A' c) (b' c) (c_lb c) (c_ub c) x ->
+  exists mm MM, mm <= nthQ x k /\ nthQ x k <= MM /\
+    Qabs (mm - nthQ mins k) <= c_tol c + c_tol c * Qabs mm /\ Qabs (MM - nthQ maxs k) <= c_tol c + c_tol c * Qabs MM.
+Proof. exact Proofs.BasisCheckP.verdict_exact. Qed.
+Print Assumptions verdict_gives_exact_range.
 (* non-vacuity of has_basis: columns 0 and 1 of the example system below are independent *)
 Example basis_concrete : has_basis [[1;1;0];[0;1;1]] 3.
 Proof.
